@@ -7,6 +7,10 @@ package harness
 import (
 	"bytes"
 	"fmt"
+	"github.com/spaolacci/murmur3"
+	"hash/adler32"
+	"hash/crc32"
+	"hash/fnv"
 	"io"
 	"os"
 	"strings"
@@ -1198,5 +1202,96 @@ func TestC02_R_LongLookupHistory(t *testing.T) {
 				t.Fatalf("C02 long history: after %d lookups: %v", step, err)
 			}
 		}
+	}
+}
+
+// C03: many different paths are resolved in one process. Whatever the library remembers about paths it has seen (compiled
+// selectors, parsed segments) may not be keyed by less than the path: pairs of paths that agree under the usual 32-bit
+// digests (murmur3, FNV-1a, CRC-32, Adler-32) are resolved one right after the other, in both orders, and each has to
+// match its own file.
+func TestC03_R_PathsCollidingUnder32BitDigests(t *testing.T) {
+	digests := map[string]func([]byte) uint32{
+		"murmur3-32": func(b []byte) uint32 { return murmur3.Sum32(b) },
+		"fnv-1a-32":  func(b []byte) uint32 { h := fnv.New32a(); h.Write(b); return h.Sum32() },
+		"crc32-ieee": crc32.ChecksumIEEE,
+		"adler32":    adler32.Checksum,
+	}
+	var pairs [][2]string
+	for _, name := range []string{"adler32", "crc32-ieee", "fnv-1a-32", "murmur3-32"} {
+		seen := map[uint32]string{}
+		found := 0
+		for i := 0; i < 600000 && found < 2; i++ {
+			p := fmt.Sprintf("img/%d.png", i)
+			if i%3 == 1 {
+				p = fmt.Sprintf("img/scan-%x.jpeg", i*2654435761)
+			} else if i%3 == 2 {
+				p = fmt.Sprintf("img/%d/%d.gif", i%97, i)
+			}
+			d := digests[name]([]byte(p))
+			if q, ok := seen[d]; ok {
+				pairs = append(pairs, [2]string{q, p})
+				found++
+				continue
+			}
+			seen[d] = p
+		}
+	}
+	if len(pairs) < 4 {
+		t.Fatalf("harness: only %d colliding pairs found", len(pairs))
+	}
+	st := NewStore()
+	var es []entrySpec
+	sub := map[string][]entrySpec{}
+	seenPath := map[string]bool{}
+	for _, pr := range pairs {
+		for _, p := range pr {
+			if seenPath[p] {
+				continue
+			}
+			seenPath[p] = true
+			base := p[len("img/"):]
+			c := sumRaw([]byte(p))
+			st.Put(c, []byte(p))
+			if i := strings.IndexByte(base, '/'); i >= 0 {
+				sub[base[:i]] = append(sub[base[:i]], entrySpec{Name: base[i+1:], Cid: c, Tsize: uint64(len(p))})
+			} else {
+				es = append(es, entrySpec{Name: base, Cid: c, Tsize: uint64(len(p))})
+			}
+		}
+	}
+	for d, ses := range sub {
+		dc, dsz, err := buildDir(st, ses)
+		if err != nil {
+			t.Fatal(err)
+		}
+		es = append(es, entrySpec{Name: d, Cid: dc, Tsize: dsz})
+	}
+	img, isz, err := buildDir(st, es)
+	if err != nil {
+		t.Fatal(err)
+	}
+	root, _, err := buildDir(st, []entrySpec{{Name: "img", Cid: img, Tsize: isz}})
+	if err != nil {
+		t.Fatal(err)
+	}
+	resolve := func(p string) {
+		for _, which := range []string{"match", "entity", "preload"} {
+			ms, _, err := c03Walk(st, root, p, which, false)
+			if err != nil || len(ms) != 1 {
+				t.Fatalf("C03: path %q (%s) matched %d nodes (err %v)", p, which, len(ms), err)
+			}
+			if b, err := ms[0].Node.AsBytes(); err != nil || string(b) != p {
+				t.Fatalf("C03: path %q (%s), resolved right after a path with the same 32-bit digest, matched the file %q (err %v)", p, which, b, err)
+			}
+		}
+	}
+	for _, pr := range pairs {
+		resolve(pr[0])
+		resolve(pr[1])
+		resolve(pr[0])
+	}
+	for i := len(pairs) - 1; i >= 0; i-- {
+		resolve(pairs[i][1])
+		resolve(pairs[i][0])
 	}
 }
